@@ -26,8 +26,19 @@ def fresh():
     objectio.set_io_objects()
 
 
+def ignore_argument(ig):
+    """the `ignore` argument of a case: the same identifiers (built at run time: equal, not identical, to the literals
+    of the library) in the requested container form"""
+    items = ["".join(list(x)) for x in ig["items"]]
+    form = ig["form"]
+    return {"list": list, "tuple": tuple, "set": set, "frozenset": frozenset,
+            "dict": lambda xs: dict.fromkeys(xs, True)}[form](items)
+
+
 def check(case):
     text = case["text"]
+    kw = {"ignore": ignore_argument(case["ignore"])} if case.get("ignore") else {}
+    given = repr(kw["ignore"]) if kw else None
     fresh()
     held = None
     if case.get("prelude"):
@@ -41,8 +52,11 @@ def check(case):
     signal.signal(signal.SIGALRM, _alarm)
     signal.alarm(60)                      # a read that does not come back is an undeclared outcome too
     try:
-        out = objectio.read_pil(text)
+        out = objectio.read_pil(text, **kw)
     except ALLOWED as e:
+        if case.get("must_read") and kw:
+            return (f"a valid document (apart from lines announced as ignored) was refused when read with ignore = {given}, "
+                    f"which leaves a consistent system: {type(e).__name__}: {e}")
         if case.get("must_read"):
             return f"a document whose only oddity is a line that is announced as ignored was refused: {type(e).__name__}: {e}"
         out = None
@@ -51,9 +65,11 @@ def check(case):
     except _Stuck:
         return "read_pil did not return within 60 s"
     except BaseException as e:
-        return f"read_pil raised {type(e).__name__}: {e}"
+        return f"read_pil raised {type(e).__name__}: {e}" + (f" (ignore = {given})" if kw else "")
     finally:
         signal.alarm(0)
+    if kw and repr(kw["ignore"]) != given:
+        return f"read_pil changed its `ignore` argument from {given} to {kw['ignore']!r}"
     if out is not None and case.get("expect_reactions") is not None:
         n = len(out["det_reactions"]) + len(out["con_reactions"])
         if n != case["expect_reactions"]:
